@@ -16,6 +16,8 @@ CLAIMED = {
          "After every set/insert/remove/rename the live items (through the handle used, handles taken before the history and a fresh traversal), the strict re-read of the printed document and the bytes outside the touched field are compared with a Vec<Vec<(name,value)>> model; histories start from generated documents of every layout, from programmatically built paragraphs, and all histories of length <=2 (quick) / <=3 (thorough) over a 6-document catalogue are enumerated."),
  "C05": ("model-based state-machine monitor over paragraph add/insert/remove histories interleaved with field edits: list model, re-read, other-paragraph and comment preservation via an independent line scanner; random histories + exhaustive catalogue",
          "After every add/insert(i)/remove(i) (every index incl. beyond the end) the live paragraph list, the strict re-read, the text of all other paragraphs and the ordered comment lines are compared with the model; returned handles are kept and checked later; histories start from the empty document and generated documents of every layout; all histories of length <=3 (quick) / <=4 (thorough) over an 18-operation alphabet on 7 start documents are enumerated."),
+ "C07": ("invariant + reference-model oracle on wrap_and_sort results over generated documents x settings product (indentation, empty-first-line, width, comparators, formatters incl. logged formatter calls), at entry/paragraph/document/control-file level; idempotence by double application",
+         "For every generated (document, settings) pair the result is printed, strictly re-read and compared with what the returned object reports and with the input model (multiset/order of paragraphs and fields, value lines or the logged formatter output, comment lines in front of the same field/paragraph, exact continuation indentation, single blank-line separation) and the reformatting is applied a second time; control files additionally check Source-first/Package order, Uploaders splitting and agreement of relation fields with the crate's relation normaliser."),
 }
 TODO = {}
 props = [json.loads(l) for l in open("/verif/properties.jsonl")]
